@@ -100,10 +100,17 @@ def parseMsg (toks : List String) : Option Msg :=
 
 /-- Control messages (everything the model predicts) of an implementation message list. -/
 def isControl (msg : String) : Bool :=
-  !(msg.startsWith "request:" || msg.startsWith "cancel:" || msg.startsWith "allowedfast:" || msg.startsWith "port:")
+  !(msg.startsWith "request:" || msg.startsWith "cancel:" || msg.startsWith "allowedfast:" || msg.startsWith "port:" ||
+    (msg.startsWith "extmeta:" && (msg.splitOn "type=0").length ≥ 2))
 
 def normMsg (msg : String) : String :=
-  if msg.startsWith "exths:" then "exths" else msg
+  if msg.startsWith "exths:" then "exths"
+  else if msg.startsWith "extmeta:" then
+    let fs := msg.splitOn ":"
+    let get (k : String) := ((fs.find? fun f => f.startsWith (k ++ "=")).map fun f => (f.drop (k.length + 1)).toString).getD ""
+    let verdict := if fs.contains "ok" then ":ok" else if fs.contains "bad" then ":bad" else ""
+    s!"extmeta:type={get "type"}:piece={get "piece"}{verdict}"
+  else msg
 
 structure StepOut where
   st : St
@@ -113,7 +120,7 @@ structure StepOut where
 /-- The model's handling of one op (before worker completions). -/
 def applyOp (s : St) (op : String) (implVerdict : String) : StepOut :=
   let toks := words op
-  let s := { s with sto := [], mayStart := [], closedDl := [] }
+  let s := { s with sto := [], mayStart := [], closedDl := [], mayStartI := false }
   let m : M := (s, [])
   let fin (m : M) (v : String := "") : StepOut :=
     let m := runWorkers 12 m
@@ -156,7 +163,31 @@ def applyOp (s : St) (op : String) (implVerdict : String) : StepOut :=
       fin m (if implVerdict = "skipped:no-peer" then implVerdict else "skipped:peer-closed")
     | some _ =>
       match parseMsg toks with
-      | none => { st := s, verdict := implVerdict, outs := [] }
+      | none =>
+        match kvStr toks "t" with
+        | "exths" =>
+          let hasMeta := (kvStr toks "m").splitOn "+" |>.any (fun kvp => kvp.startsWith "ut_metadata:")
+          let size := if kvStr toks "size" = "true" then s.isize else kvNat toks "size"
+          fin (handleExtHandshake m k hasMeta size)
+        | "metadata" =>
+          let i := kvNat toks "i"
+          let trueLen := if i * 16384 < s.isize then min 16384 (s.isize - i * 16384) else 0
+          let (len, good) :=
+            if kvStr toks "len" ≠ "" then (kvNat toks "len", false)
+            else if kvStr toks "data" = "flip" then (trueLen, trueLen = 0)
+            else (trueLen, true)
+          fin (handleMetadataData m k i len good)
+        | "metareject" => fin (handleMetadataReject m k)
+        | "metareq" =>
+          -- a peer asks us for a metadata block
+          match s.findPeer k with
+          | some p =>
+            if !p.extHS || !p.extMeta then fin m
+            else if !s.info then fin (send m k s!"extmeta:type=2:piece={kvNat toks "i"}")
+            else if kvNat toks "i" * 16384 ≥ s.isize then fin (send m k s!"extmeta:type=2:piece={kvNat toks "i"}")
+            else fin (send m k s!"extmeta:type=1:piece={kvNat toks "i"}:ok")
+          | none => fin m
+        | _ => fin m implVerdict
       | some (.piece i b l good) =>
         if l > 16384 then fin m "skipped:reader-rejects-long-block"
         else if s.writing.isSome then fin m "deferred"   -- parked until the write completes (see `deferredQ`)
@@ -200,6 +231,7 @@ def renderObs (s : St) (verdict : String) (outs : List Out) (impl : List (String
         toString ((List.range s.n).foldl (fun acc i => if b.getD i false then acc + s.cfg.plens.getD i 0 else acc) 0)
       | none => "0"
     | "dl" => dlTok
+    | "idl" => joinOrDash (s.idls.map fun d => toString d.k)
     | "peers" => joinOrDash (s.peers.map fun p => toString p.k)
     | "npeers" => toString s.peers.length
     | "banned" => joinOrDash (sortStrings s.banned)
@@ -292,8 +324,11 @@ def stepDriver (d : DSt) (op implObs : String) : DSt × String × List String :=
   let toks := words op
   if toks.headD "" = "new" then
     let c := parseNew toks
-    let s := initSt c (kvStr toks "magnet" = "1")
     let (v, impl) := splitObs implObs
+    let s := initSt c (kvStr toks "magnet" = "1")
+    let s := { s with isize := (((impl.find? fun (k, _) => k = "isize").bind fun (_, x) => x.toNat?)).getD 0,
+                      maxMeta := ((kv? toks "cfg.MaxMetadataSize").bind (·.toNat?)).getD 31457280,
+                      parMeta := ((kv? toks "cfg.ParallelMetadataDownloads").bind (·.toNat?)).getD 2 }
     if v ≠ "ok" then ({ s := none }, implObs, [])
     else ({ s := some s }, renderObs s "ok" [] impl "-", [])
   else
@@ -332,11 +367,14 @@ def stepDriver (d : DSt) (op implObs : String) : DSt × String × List String :=
     | none =>
       let implDl := parseDl (((impl.find? fun (k, _) => k = "dl").map (·.2)).getD "-")
       let (st2, errs) := reconcile st1 implDl
+      let implIdl := (commaList (((impl.find? fun (k, _) => k = "idl").map (·.2)).getD "-")).map parseNat!
+      let (st2, errsI) := reconcileIdl st2 implIdl
       let dlTok := if errs.isEmpty then (((impl.find? fun (k, _) => k = "dl").map (·.2)).getD "-")
                    else "inadmissible[" ++ (";".intercalate errs).replace " " "_" ++ "]"
       -- C17: a connection whose handshake failed must be closed, not kept
       let c17hs := if toks.headD "" = "peer" && implVerdict = "refused" then ["C17 failed-handshake-socket-left-open"] else []
       let viol := oracles s st2 impl ++ finalOracle st2 op impl ++ c17hs ++ errs.map (fun e => "C09 picker-choice-inadmissible " ++ e.replace " " "_")
+        ++ errsI.map (fun e => "C13 metadata-download-inadmissible " ++ e.replace " " "_")
       ({ s := some st2, parked := parked }, renderObs st2 r.verdict outs1 impl dlTok, viol)
 
 def mkSuite (name : String) : Suite where
